@@ -135,6 +135,9 @@ SEED_EXPECT={
  "C06-7":"R-LOCK/L6","C07-7":"R-PROV/valuename","C08-7":"R-WIRE/W3","C09-7":"R-COVER/tagmark","C10-7":"R-LOCK/L2",
  "C11-7":"R-POS/lexerr","C12-7":"R-SYM/S4","C13-7":"R-PROV/filename","C14-7":"R-SYM/S9","C15-7":"R-SYM/S5v",
  "C16-7":"R-PANIC/P4w","C17-7":"R-SYM/S9w","C18-7":"R-ERR/rollback","C19-7":"R-CONST/lines","C20-7":"rendering idiom",
+ # round 8 (ten properties)
+ "C02-8":"R-FLOW/attr","C04-8":"R-SYM/S4","C05-8":"R-CONST/jsondefault","C07-8":"R-CONST/rawbody","C12-8":"R-FLOW/fillall",
+ "C13-8":"R-PROV/V2","C14-8":"R-DET/N5","C15-8":"R-SYM/S7i","C16-8":"R-CONST/topicmsg","C17-8":"R-PROV/V2",
 }
 # seeds kept on record that no rule is meant to see (see DESIGN.md §10.4): not part of the self-test
 UNCOVERED=set()
